@@ -167,8 +167,15 @@ func genFeatureCfgs(rc *RC, label string) []fcfg {
 		}
 		out = append(out, f)
 	}
+	if ch.Chance(label, 1, 3) {
+		// one feature carries the STARTTLS namespace: the one feature the initiator may try although it was not advertised
+		i := ch.Int(label, len(out))
+		out[i] = fcfg{idx: i, ns: nsTLS, proh: xmpp.Secure, add: xmpp.Secure, req: ch.Chance(label, 3, 4), restart: true}
+	}
 	return out
 }
+
+const nsTLS = "urn:ietf:params:xml:ns:xmpp-tls"
 
 func runC01(rc *RC) {
 	ch := rc.Ch
@@ -449,7 +456,10 @@ func runC01(rc *RC) {
 			if sd.recv {
 				round = sd.logListsAt(i)
 			}
-			if !adv[round][e.ns] {
+			if !adv[round][e.ns] && e.ns == nsTLS && !sd.recv && round == 1 && e.state&xmpp.Secure == 0 {
+				// the sole exception: the initiator's STARTTLS attempt on the first features list of the connection
+				rc.S.Probes["unadvertised-starttls"]++
+			} else if !adv[round][e.ns] {
 				rc.Failf("C01.c2", "negotiated-unadvertised:"+sig, "%s negotiated %s which is not in the current advertisement (round %d: %v)", sd.name, e.ns, round, adv[round])
 			}
 			// c3: at most once per stream
